@@ -8,6 +8,7 @@
    both levels insertion ordered association lists.  Strings are UTF-8 byte
    lists.  Definitions and show_* observables only. *)
 From PV Require Import Lib.Base Model.Codec.
+From PV Require Model.Ident.
 Open Scope N_scope.
 
 (* ---------- Python dicts as insertion-ordered association lists ---------- *)
@@ -61,11 +62,20 @@ Definition ValueError : str := s2l "ValueError".
 Definition TypeError : str := s2l "TypeError".
 Definition ToOld : str := s2l "ToOld".
 
-(* decode(): for part in txt.split(","): if "=" in part: i, val = part.split("=") (ValueError
-   when there are two), setattr(ATTR[int(i)], unquote(val)) with every failure swallowed.
-   int() is modelled for a single digit only (all that code() writes); anything
-   else is treated as the swallowed failure. *)
-Definition decode_part (acc : result nameid) (part : str) : result nameid :=
+(* decode() IS Model/Ident.v's decode (the model C18 ties to ident.py: part.split("="), int() with sign and
+   several digits, negative indexes into ATTR, every failure of setattr swallowed, ValueError for two "="),
+   read into this file's record: an absent / empty attribute is the empty string *)
+Definition od (o : option str) : str := match Ident.tr o with Some v => v | None => [] end.
+Definition of_ident (n : Ident.nameid) : nameid :=
+  {| nq := od (Ident.n_nq n); spnq := od (Ident.n_spnq n); fmt := od (Ident.n_fmt n);
+     spid := od (Ident.n_sppid n); txt := od (Ident.n_text n) |}.
+Definition decode (s : str) : result nameid :=
+  match Ident.decode s with Ok m => Ok (of_ident m) | Err e => Err e end.
+
+(* HISTORY: the decoder this file had before it imported Ident.decode - int() for ONE digit only (all that
+   code() writes); anything else treated as the swallowed failure.  Equal to decode on every key code() writes,
+   different elsewhere (Props/Glue.v Glue_ident_decode_one_digit_witness) *)
+Definition decode_part_one_digit (acc : result nameid) (part : str) : result nameid :=
   match acc with
   | Err e => Err e
   | Ok n =>
@@ -79,7 +89,7 @@ Definition decode_part (acc : result nameid) (part : str) : result nameid :=
                end
       end
   end.
-Definition decode (s : str) : result nameid := fold_left decode_part (split_on COMMA s []) (Ok no_nid).
+Definition decode_one_digit (s : str) : result nameid := fold_left decode_part_one_digit (split_on COMMA s []) (Ok no_nid).
 
 (* ---------- time tests (time_util.py) ---------- *)
 (* a not_on_or_after value: 0 / None / "" are falsy; an int or a SAML time
